@@ -3458,7 +3458,7 @@ let gen_tfs_dc k offset size =
 (** val gen_disc_shape : z list -> nat -> z list option **)
 
 let gen_disc_shape xshape nlim =
-  disc_mask_from xshape xshape nlim
+  disc_mask_from (slice0 Z0 (Zpos XH) xshape) xshape nlim
 
 (** val parse_gen : nat -> z list -> (gen * z list) option **)
 
@@ -4171,14 +4171,14 @@ let extract_normalized_convection_scale_from_difficulty k d n m difficulty_conve
 
 let reduce_normalized_gradient_norm_scale_to_difficulty k d n m normalized_gradient_norm_scale =
   k.omul
-    (k.omul normalized_gradient_norm_scale (fpow k (k.omul m n) (S (S O)))) d
+    (k.omul (k.omul normalized_gradient_norm_scale m) (fpow k n (S (S O)))) d
 
 (** val extract_normalized_gradient_norm_scale_from_difficulty :
     ops -> car -> car -> car -> car -> car **)
 
 let extract_normalized_gradient_norm_scale_from_difficulty k d n m difficulty_gradient_norm_scale =
   k.odiv difficulty_gradient_norm_scale
-    (k.omul (fpow k (k.omul m n) (S (S O))) d)
+    (k.omul (k.omul m (fpow k n (S (S O)))) d)
 
 (** val reduce_normalized_nonlinear_scales_to_difficulty :
     ops -> car -> car -> car -> car list -> car list **)
